@@ -272,6 +272,38 @@ def run(ctx, deep, model_ok):
                     'why': 'begin > end on an E line', 'vlevel': 1}
             ctx.count(case, True)
             judge(ctx, case, oracle_doc(case))
+    # `$` only on the last position of a segment (judged where the sequence of the segment is known: F70)
+    for i in range(48 if deep else 16):
+        la, lb = rng.choice([8, 10, 12]), rng.choice([8, 10, 12])
+        sa = ''.join(rng.choice('ACGT') for _ in range(la))
+        sb = ''.join(rng.choice('ACGT') for _ in range(lb))
+        combo = i % 16
+        known_a, known_b = bool(combo & 1), bool(combo & 2)
+        segs = ['S\ta\t%d\t%s' % (la, sa if known_a else '*'), 'S\tb\t%d\t%s' % (lb, sb if known_b else '*')]
+        which = ['none', 'a', 'b', 'f'][(combo >> 2) & 3]
+        a_int = ['%d' % (la - 3), '%d$' % la]
+        b_int = ['0', '3']
+        if which == 'a':
+            a_int = ['0', '%d$' % rng.randint(1, la - 1)]
+        elif which == 'b':
+            b_int = ['0', '%d$' % rng.randint(1, lb - 1)]
+        doc = segs + ['E\te\ta+\tb+\t%s\t%s\t%s\t%s\t*' % (a_int[0], a_int[1], b_int[0], b_int[1])]
+        bad = (which == 'a' and known_a) or (which == 'b' and known_b)
+        if which == 'f':
+            k = rng.randint(1, la - 1)
+            doc = segs + ['F\ta\tr1+\t0\t%d$\t0\t%d\t*' % (k, k)]
+            bad = known_a
+        if (which == 'a' and not known_a) or (which == 'b' and not known_b) or (which == 'f' and not known_a):
+            continue        # the recorded finding F70: not checked against the declared length
+        case = {'kind': 'doc', 'doc': doc, 'valid': not bad, 'why': '`$` on a position that is not the last one of the segment' if bad
+                else 'positions consistent with the segments', 'vlevel': rng.choice([1, 2, 3])}
+        ctx.count(case, bad)
+        judge(ctx, case, oracle_doc(case))
+    probe = {'kind': 'doc', 'doc': ['S\ta\t10\tACGTACGTAC', 'S\tb\t10\t*', 'E\te\ta+\tb+\t6\t10$\t0\t4$\t*'], 'valid': False,
+             'why': '`$` on position 4 of a segment of declared length 10', 'vlevel': 1}
+    if oracle_doc(probe):
+        ctx.known('F70', "`$` is only checked against the length of a known sequence: 'E e a+ b+ 6 10$ 0 4$ *' is accepted when "
+                         "segment b (declared length 10) has a placeholder sequence")
     for i in range(20 if deep else 6):
         for doc, valid, why in rgfa_mutations(rgfa_doc(rng)):
             case = {'kind': 'doc', 'doc': doc, 'valid': valid, 'why': why, 'dialect': 'rgfa', 'vlevel': 1}
